@@ -13,6 +13,7 @@ PROP = {
              "transaction of the branching flow gets exactly the actions its own headers determine; lookups never fail. Non-trivial: >=2 transactions were in flight at the same time (measured). "
              "distinct = canonical JSON of the workload parameters"),
     "assumptions": [
+        "unit TestPairInterleavedAtYieldPoints owns the schedule: request A of a quota (concurrency quota or fixed window, max 1-3, mostly one slot left or none) is stopped at its k-th yield point (the boundaries of the shared state's operations, hook 82f82ff, and the point between the Limiter's count and its verdict, b0b1961), B (a request, or the response of a transaction admitted before) is handled completely, A goes on. The outcome (verdicts of A and B, and how many of max+1 further requests are admitted afterwards) must equal the outcome of A-then-B or of B-then-A, which are obtained by letting the same gateway code handle the same transactions one after the other on a fresh configuration - no model of the quota is involved. If B cannot go on while A is stopped (A stands inside a locked region) A is released after 250 ms; that only makes the case less interesting, any real interleaving is a legitimate one",
         "unit TestFlowCountersUnderLoad: per-flow state that every transaction updates (the invocation counters behind the flow_invocations metric) must end where every one-at-a-time order leaves it - one invocation per transaction that ran the flow - after 2-16 goroutines sent 50-400 transactions each while the counters are being read; a read-modify-write that is not atomic loses updates without being a data race",
         "unit TestStoredRequestsOfOverlappingTransactions: the request kept for a transaction's response side (full-request messages; APIStream.StoreRequest / DiscardRequest as routing.processRequest / processResponse call them) is that transaction's alone: 2-6 transactions of a flow whose response path exports every transaction (HARCollector reads the stored request) run their two sides in a generated interleaving with several requests stored before any is answered, bodies and URLs of equal and different lengths; every response side exports one record whose request - URL and body - is the transaction's own (sequential, deterministic; the race detector is on all the same)",
         "the gateway's log level (LOG_LEVEL: off in three cases of eight, else error / info / debug / trace; what is logged is thrown away, what a log statement does to build its arguments happens) is a generated part of every case of TestWorkloads (only the atomic global level moves there; the logger variable is pointed to nowhere once, before anything runs, so that the race detector sees no harness write): no answer may depend on it; a failing case reports its level",
@@ -31,6 +32,7 @@ PROP = {
         dict({"pkg": "c18", "test": "TestVacuumKeepsEveryRegistration", "quick": 1500, "thorough": 20000, "shards": 8}, **_RACE),
         dict({"pkg": "c18", "test": "TestManagerReloadWorkload", "quick": 75, "thorough": 600, "shards": 1}, **_RACE),
         dict({"pkg": "c18", "test": "TestStoredRequestsOfOverlappingTransactions", "quick": 600, "thorough": 10000, "shards": 8}, **_RACE),
+        dict({"pkg": "c18", "test": "TestPairInterleavedAtYieldPoints", "quick": 200, "thorough": 6000, "shards": 8, "quick_shards": 2}, **_RACE),
         dict({"pkg": "c18", "test": "TestFlowCountersUnderLoad", "quick": 12, "thorough": 200, "shards": 8, "quick_shards": 2}, **_RACE),
     ],
     "technique": "generated concurrent workloads and forced interleavings under the Go race detector (happens-before oracle, reports reduced to normalised signatures) plus serialisability checks of the verdicts",
